@@ -72,6 +72,7 @@ def case(draw):
         "no_wrap": draw(st.sampled_from([False, False, False, True])),
         "tab_size": draw(st.integers(1, 8)),
         "via": draw(st.sampled_from(["wrap", "wrap", "render"])),
+        "prelude": draw(st.one_of(st.none(), st.none(), st.tuples(st.sampled_from(["crop", "ellipsis", "fold", "ignore"]), st.sampled_from(["default", "left", "center", "right", "full"]), st.booleans(), st.booleans()).map(list))),
     }
 
 
@@ -104,6 +105,20 @@ class Wrap(Part):
         t = sut(Text, text, style=base, spans=list(spans), tab_size=spec["tab_size"])
         con = TV.console()
         overflow, justify, no_wrap = spec["overflow"], spec["justify"], spec["no_wrap"]
+        prelude = spec.get("prelude")
+        if prelude:
+            # history: the same text was wrapped before - another Text with the same characters at the same width under other options, and/or this very
+            # object (wrapping must neither remember anything across calls nor modify the text it is given)
+            other = sut(Text, text, tab_size=spec["tab_size"])
+            sut(other.wrap, con, width, overflow=prelude[0], justify=prelude[1], tab_size=spec["tab_size"])
+            if prelude[2]:
+                spans_before = list(t.spans)
+                plain_before = t.plain
+                sut(t.wrap, con, width, overflow=prelude[0], justify=prelude[1], tab_size=spec["tab_size"], no_wrap=prelude[3])
+                if t.plain != plain_before or list(t.spans) != spans_before:
+                    ctx.violation("style", "C02/style/wrap-modified-its-input", "wrap() changed the text it was given: spans %r -> %r" % (spans_before, t.spans))
+                    return
+            ctx.cls("prelude")
         if spec["via"] == "wrap":
             lines = sut(t.wrap, con, width, justify=justify, overflow=overflow, tab_size=spec["tab_size"], no_wrap=no_wrap)
             out_lines = [TV.char_styles(l) for l in lines]
